@@ -45,10 +45,12 @@ CONSTANTS
                  \* the equilibria written with their "net" coefficients, or with a species on BOTH
                  \* sides ("self": a participant, "other": a catalyst that does not take part, "inact":
                  \* listed as inactive reactant and inactive product) - the law only sees the net
-    MaxEvals     \* number of evaluations of one residual object (1 = no history)
+    MaxEvals,    \* number of evaluations of one residual object (1 = no history)
+    TraceSpecies,\* pool species that may be put on the trace scale 10^TraceExp (constants over decades)
+    TraceExp     \* decimal exponent of the trace scale (a negative integer, e.g. -9)
 
-VARIABLES phase, sys, ceq, K, xi, cinit, pert, c, cfg, expd, hist
-vars == <<phase, sys, ceq, K, xi, cinit, pert, c, cfg, expd, hist>>
+VARIABLES phase, sys, ceq, K, xi, cinit, pert, c, cfg, expd, hist, dexp
+vars == <<phase, sys, ceq, K, xi, cinit, pert, c, cfg, expd, hist, dexp>>
 
 NoPert == [kind |-> "unset", i |-> 0, a |-> QZero]
 NoCfg == [ns |-> "", re |-> FALSE, rp |-> FALSE, opt |-> <<"", TRUE, "", "", "">>]
@@ -59,29 +61,44 @@ NR == Len(sys.rs)
 (* once, when the perturbation is chosen, and kept in expd                                    *)
 QAbsDiff(a, b) == QAbs(QSub(a, b))
 Hundredth == <<1, 100>>
+(* SCALES.  A state is  c_j = m_j * 10^(dexp_j)  with the rational mantissa m_j of the grid and a    *)
+(* decimal exponent that is 0 (macro species) or TraceExp (trace species): constants then range over *)
+(* decades, K_i = Q_i(m) * 10^(SUM_j nu_ij dexp_j), down to 1e-18 and below.  All arithmetic stays   *)
+(* on the mantissas: a quotient is a monomial (its exponent is fixed by dexp), a total is the pair   *)
+(* (sum over macro species, sum over trace species) - the two parts are compared separately, which   *)
+(* is exact because a macro part changes in steps >= 1e-3 and a trace part stays below 1e-6.         *)
+HasTrace == \E j \in 1..Len(dexp) : dexp[j] # 0
+TraceDue == \E j \in 1..NS : sys.ss[j] \in TraceSpecies
+DExp(j) == IF j <= Len(dexp) THEN dexp[j] ELSE 0
+Masked(brow, e) == [j \in 1..Len(brow) |-> IF DExp(j) = e THEN brow[j] ELSE 0]
+KExp == [i \in 1..NR |-> SumSeq([j \in 1..NS |-> sys.nu[i][j] * DExp(j)])]
 Judge(st, ini) ==
     LET q    == [i \in 1..NR |-> Quotient(sys.nu[i], st)]
-        totc == [i \in 1..Len(sys.B) |-> Total(sys.B[i], st)]
-        tot0 == [i \in 1..Len(sys.B) |-> Total(sys.B[i], ini)]
+        totc == [i \in 1..Len(sys.B) |-> Total(Masked(sys.B[i], 0), st)]
+        tot0 == [i \in 1..Len(sys.B) |-> Total(Masked(sys.B[i], 0), ini)]
+        totcT == [i \in 1..Len(sys.B) |-> IF HasTrace THEN Total(Masked(sys.B[i], TraceExp), st) ELSE QZero]
+        tot0T == [i \in 1..Len(sys.B) |-> IF HasTrace THEN Total(Masked(sys.B[i], TraceExp), ini) ELSE QZero]
         ateq == \A i \in 1..NR : QEq(q[i], K[i])
-        keeps == \A i \in 1..Len(sys.B) : QEq(totc[i], tot0[i])
-    IN  [ateq |-> ateq, keeps |-> keeps, zero |-> ateq /\ keeps, q |-> q, totc |-> totc, tot0 |-> tot0]
-\* the constants the system object itself carries: those of the first evaluation
-SystemK == IF hist = <<>> THEN K ELSE hist[1].K
-NoExp == [ateq |-> FALSE, keeps |-> FALSE, zero |-> FALSE, q |-> <<>>, totc |-> <<>>, tot0 |-> <<>>]
-\* margins by which a judged state misses a quotient (relative) / a total (absolute)
+        keeps == \A i \in 1..Len(sys.B) : QEq(totc[i], tot0[i]) /\ QEq(totcT[i], tot0T[i])
+    IN  [ateq |-> ateq, keeps |-> keeps, zero |-> ateq /\ keeps, q |-> q, totc |-> totc, tot0 |-> tot0,
+         totcT |-> totcT, tot0T |-> tot0T]
+NoExp == [ateq |-> FALSE, keeps |-> FALSE, zero |-> FALSE, q |-> <<>>, totc |-> <<>>, tot0 |-> <<>>,
+          totcT |-> <<>>, tot0T |-> <<>>]
+\* margins by which a judged state misses a quotient (relative) / a macro total (absolute)
 QuotientOff == \E i \in 1..NR : QLe(Hundredth, QAbsDiff(QDiv(expd.q[i], K[i]), QOne))
 TotalOff == \E i \in 1..Len(sys.B) : QLe(Hundredth, QAbsDiff(expd.totc[i], expd.tot0[i]))
+\* the constants the system object itself carries: those of the first evaluation
+SystemK == IF hist = <<>> THEN K ELSE hist[1].K
 
 Init ==
     /\ phase = "sys" /\ sys = NoSys /\ ceq = <<>> /\ K = <<>> /\ xi = <<>>
-    /\ cinit = <<>> /\ pert = NoPert /\ c = <<>> /\ cfg = NoCfg /\ expd = NoExp /\ hist = <<>>
+    /\ cinit = <<>> /\ pert = NoPert /\ c = <<>> /\ cfg = NoCfg /\ expd = NoExp /\ hist = <<>> /\ dexp = <<>>
 
 ------------------------------------------------------------------------------
 ChooseSystem(S) ==
     /\ phase = "sys" /\ S # {} /\ S \subseteq HomogRx /\ Independent(S)
     /\ sys' = SysInfo(S) /\ phase' = "state"
-    /\ UNCHANGED <<ceq, K, xi, cinit, pert, c, cfg, expd, hist>>
+    /\ UNCHANGED <<ceq, K, xi, cinit, pert, c, cfg, expd, hist, dexp>>
 
 DefineK(st) == [i \in 1..NR |-> Quotient(sys.nu[i], st)]
 
@@ -90,32 +107,40 @@ SetConc(v) ==
     /\ phase = "state" /\ Len(ceq) < NS /\ v[1] > 0 /\ v[2] > 0
     /\ ceq' = Append(ceq, Norm(v))
     /\ IF Len(ceq') = NS THEN K' = DefineK(ceq') /\ phase' = "extent" ELSE UNCHANGED <<K, phase>>
-    /\ UNCHANGED <<sys, xi, cinit, pert, c, cfg, expd, hist>>
+    /\ UNCHANGED <<sys, xi, cinit, pert, c, cfg, expd, hist, dexp>>
 
 SetPattern(a, b) ==
     /\ phase = "state" /\ ceq = <<>> /\ Len(GridSeq) > 0
     /\ ceq' = [j \in 1..NS |-> Norm(GridSeq[((a * sys.ss[j] + b) % Len(GridSeq)) + 1])]
     /\ K' = DefineK(ceq') /\ phase' = "extent"
-    /\ UNCHANGED <<sys, xi, cinit, pert, c, cfg, expd, hist>>
+    /\ UNCHANGED <<sys, xi, cinit, pert, c, cfg, expd, hist, dexp>>
 
 \* st + SUM_i ext_i nu_i
 Along(st, ext) ==
     [j \in 1..NS |-> QAdd(st[j], QSumSeq([i \in 1..Len(ext) |-> QMul(ext[i], Q(sys.nu[i][j]))]))]
 NegAll(ext) == [i \in 1..Len(ext) |-> QNeg(ext[i])]
 
+\* put the species of T on the trace scale (before any extent is chosen)
+SetTrace(T) ==
+    /\ phase = "extent" /\ xi = <<>> /\ ~HasTrace /\ T # {} /\ T \subseteq 1..NS
+    /\ dexp' = [j \in 1..NS |-> IF j \in T THEN TraceExp ELSE 0]
+    /\ UNCHANGED <<phase, sys, ceq, K, xi, cinit, pert, c, cfg, expd, hist>>
+
 SetExtent(x) ==
     /\ phase = "extent" /\ Len(xi) < NR
+    /\ HasTrace => x[1] = 0        \* an extent would mix the scales inside one concentration
+    /\ TraceDue => HasTrace        \* a configuration that names trace species uses them
     /\ xi' = Append(xi, Norm(x))
     /\ IF Len(xi') = NR
        THEN /\ cinit' = Along(ceq, NegAll(xi'))      \* cinit = ceq - SUM xi_i nu_i
             /\ AllNonNegQ(cinit')
             /\ phase' = "pert"
        ELSE UNCHANGED <<cinit, phase>>
-    /\ UNCHANGED <<sys, ceq, K, pert, c, cfg, expd, hist>>
+    /\ UNCHANGED <<sys, ceq, K, pert, c, cfg, expd, hist, dexp>>
 
 Hand(st, ini, p) ==
     /\ c' = st /\ cinit' = ini /\ pert' = p /\ expd' = Judge(st, ini) /\ phase' = "cfg"
-    /\ UNCHANGED <<sys, ceq, K, xi, cfg, hist>>
+    /\ UNCHANGED <<sys, ceq, K, xi, cfg, hist, dexp>>
 
 NoPerturb ==
     /\ phase = "pert"
@@ -123,7 +148,7 @@ NoPerturb ==
 
 \* move the state along reaction number i of the system (keeps every total, changes Q_i)
 BreakQuotient(i, d) ==
-    /\ phase = "pert" /\ i \in 1..NR /\ d[1] # 0
+    /\ phase = "pert" /\ i \in 1..NR /\ d[1] # 0 /\ ~HasTrace
     /\ LET st == Along(ceq, [t \in 1..NR |-> IF t = i THEN d ELSE QZero])
        IN  AllPos(st) /\ Hand(st, cinit, [kind |-> "extent", i |-> i, a |-> Norm(d)])
 
@@ -133,7 +158,7 @@ ScaleSpecies(j, f) ==
 
 \* the state stays at ceq, the initial state it is compared with is shifted in one species
 BreakConservation(j, d) ==
-    /\ phase = "pert" /\ j \in 1..NS /\ d[1] # 0
+    /\ phase = "pert" /\ j \in 1..NS /\ d[1] # 0 /\ DExp(j) = 0   \* (an absolute margin needs the macro scale)
     /\ LET ini == [cinit EXCEPT ![j] = QAdd(cinit[j], d)]
        IN  ini[j][1] >= 0 /\ Hand(ceq, ini, [kind |-> "shift0", i |-> j, a |-> Norm(d)])
 
@@ -142,10 +167,11 @@ Residual(ns, re, rp, opt) ==
     \* a re-used object keeps its formulation and options
     /\ hist = <<>> \/ (ns = cfg.ns /\ re = cfg.re /\ rp = cfg.rp /\ opt = cfg.opt)
     /\ cfg' = [ns |-> ns, re |-> re, rp |-> rp, opt |-> opt] /\ phase' = "done"
-    /\ UNCHANGED <<sys, ceq, K, xi, cinit, pert, c, expd, hist>>
+    /\ UNCHANGED <<sys, ceq, K, xi, cinit, pert, c, expd, hist, dexp>>
 
 \* the evaluation just made, as it goes into the history
-Evaluation == [K |-> K, c |-> c, c0 |-> cinit, pert |-> pert, zero |-> expd.zero, ateq |-> expd.ateq,
+Evaluation == [K |-> K, c |-> c, c0 |-> cinit, pert |-> pert, dexp |-> [j \in 1..NS |-> DExp(j)], Kexp |-> KExp, totcT |-> expd.totcT,
+               tot0T |-> expd.tot0T, zero |-> expd.zero, ateq |-> expd.ateq,
                keeps |-> expd.keeps, q |-> expd.q, totc |-> expd.totc, tot0 |-> expd.tot0]
 
 \* the same residual object (same system, same formulation) is evaluated again with new parameters
@@ -154,6 +180,7 @@ Again ==
     /\ cfg.opt[2]          \* other constants can only be handed over when they travel in params
     /\ hist' = Append(hist, Evaluation)
     /\ ceq' = <<>> /\ K' = <<>> /\ xi' = <<>> /\ cinit' = <<>> /\ pert' = NoPert /\ c' = <<>> /\ expd' = NoExp
+    /\ dexp' = <<>>
     /\ phase' = "state"
     /\ UNCHANGED <<sys, cfg>>
 
@@ -163,6 +190,7 @@ GenSystem == phase = "sys" /\ \E k \in 1..MaxRxns : \E S \in kSubset(k, RxnIds) 
 GenConc == "full" \in StateModes /\ \E i \in 1..Len(GridSeq) : SetConc(GridSeq[i])
 GenPattern == "pattern" \in StateModes /\ \E p \in Patterns : SetPattern(p[1], p[2])
 GenExtent == \E x \in Extents : SetExtent(x)
+GenTrace == LET T == {j \in 1..NS : sys.ss[j] \in TraceSpecies} IN phase = "extent" /\ SetTrace(T)
 GenNoPerturb == "none" \in PertKinds /\ NoPerturb
 GenBreakQuotient == "extent" \in PertKinds /\ \E i \in 1..NR, d \in Deltas : BreakQuotient(i, d)
 GenScale == "scale" \in PertKinds /\ \E j \in 1..NS, f \in Factors : ScaleSpecies(j, f)
@@ -170,7 +198,7 @@ GenBreakConservation == "shift0" \in PertKinds /\ \E j \in 1..NS, d \in Shifts :
 GenResidual == \E ns \in NumSyss, fl \in RrefFlags, o \in Options : Residual(ns, fl[1], fl[2], o)
 
 Next ==
-    \/ GenSystem \/ GenConc \/ GenPattern \/ GenExtent
+    \/ GenSystem \/ GenConc \/ GenPattern \/ GenExtent \/ GenTrace
     \/ GenNoPerturb \/ GenBreakQuotient \/ GenScale \/ GenBreakConservation
     \/ GenResidual \/ Again
 
@@ -205,7 +233,8 @@ PerturbationBreaksOneClause ==
 PerturbationIsLarge ==
     Perturbed =>
         /\ pert.kind \in {"extent", "scale"} => QuotientOff
-        /\ pert.kind \in {"scale", "shift0"} => TotalOff
+        /\ pert.kind = "shift0" => TotalOff
+        /\ (pert.kind = "scale" /\ DExp(pert.i) = 0) => TotalOff
         /\ pert.kind = "none" => ~QuotientOff /\ ~TotalOff
 
 \* balanced reactions lie in the null space of the composition matrix: the row-reduced
@@ -247,6 +276,7 @@ CaseIn ==
      xi      |-> xi,
      pert    |-> pert,
      hist    |-> hist,
+     dexp    |-> [j \in 1..NS |-> DExp(j)], Kexp |-> KExp,
      written |-> Written(cfg.opt[5]),
      ns      |-> cfg.ns, re |-> cfg.re, rp |-> cfg.rp, opt |-> cfg.opt]
 
@@ -257,6 +287,7 @@ CaseExp ==
      keys  |-> sys.ks,
      totc  |-> expd.totc,
      tot0  |-> expd.tot0,
+     totcT |-> expd.totcT, tot0T |-> expd.tot0T, texp |-> TraceExp,
      \* argument forms of the public helpers: two states stacked (c, ceq) -> quotients (q, K);
      \* stoichs_constants without row reduction returns (nu, K); eq_constants() the system's own K
      qceq  |-> K, totceq |-> [i \in 1..Len(sys.B) |-> Total(sys.B[i], ceq)], sysK |-> SystemK,
@@ -266,6 +297,6 @@ CaseExp ==
 CaseRec == [in |-> CaseIn, exp |-> CaseExp,
             cls |-> cfg.ns \o (IF cfg.re THEN "-re" ELSE "") \o (IF cfg.rp THEN "-rp" ELSE "") \o "-" \o pert.kind
                     \o "-" \o cfg.opt[1] \o (IF cfg.opt[2] THEN "" ELSE "-ownK") \o "-" \o cfg.opt[3] \o "-" \o cfg.opt[4] \o "-" \o cfg.opt[5]
-                    \o (IF hist = <<>> THEN "" ELSE "-again")]
+                    \o (IF hist = <<>> THEN "" ELSE "-again") \o (IF HasTrace THEN "-trace" ELSE "")]
 Emit == Done => PrintT(<<"CASE", ToJson(CaseRec)>>)
 =============================================================================
